@@ -46,6 +46,10 @@ impl Adf {
             .read()
             .expect("ReadLock on namelist failed")
             .clone();
+        let namelist: Vec<String> = namelist
+            .iter()
+            .map(|name| crate::parser::biodivine_var_name(name))
+            .collect();
         let slice_vec: Vec<&str> = namelist.iter().map(<_>::as_ref).collect();
         bdd_var_builder.make_variables(&slice_vec);
         let bdd_variables = bdd_var_builder.build();
@@ -96,9 +100,12 @@ impl Adf {
                     Box::new(acc),
                     Box::new(BooleanExpression::Iff(
                         Box::new(BooleanExpression::Variable(
-                            self.ordering
-                                .name(crate::datatypes::Var(*new_order))
-                                .expect("Variable should exist"),
+                            crate::parser::biodivine_var_name(
+                                &self
+                                    .ordering
+                                    .name(crate::datatypes::Var(*new_order))
+                                    .expect("Variable should exist"),
+                            ),
                         )),
                         Box::new(parser.ac_at(insert_order).expect("Insert order needs to exist, as all the data originates from the same parser object").to_boolean_expr()),
                     )),
@@ -329,9 +336,12 @@ impl Adf {
                 acc.and(
                     &formula.iff(
                         &self.varset.eval_expression(&BooleanExpression::Variable(
-                            self.ordering
-                                .name(crate::datatypes::Var(idx))
-                                .expect("Variable should exist"),
+                            crate::parser::biodivine_var_name(
+                                &self
+                                    .ordering
+                                    .name(crate::datatypes::Var(idx))
+                                    .expect("Variable should exist"),
+                            ),
                         )),
                     ),
                 )
